@@ -26,12 +26,13 @@ func init() {
 		Rule: "Each case is a history of blocking and non-blocking reports (and Blank.SetSource calls) from 2-3 sources against a real Dials[Cfg], with the caller's context cancelled at a scripted place: before the call, while the monitor is inside Verify for that very report (harness Verify signals and parks), at the mon.beforeReply hook (reply about to be sent), after return, or at a seeded random moment. " +
 			"Oracle 1: the client-boundary history is linearizable (porcupine) against the sequential model in which a nil blocking report means installed-and-visible-unless-superseded, an error means rejected-and-view-unchanged, and a context-ended report may or may not have been handed to the monitor (classified by the returned error) and stays open to the end of the history. " +
 			"Oracle 2 (abandoned caller): after every cancellation a follow-up blocking report from another source must return; if it does not, two goroutine dumps showing the monitor parked in a channel send are the violation, anything else is inconclusive. " +
-			"distinct_nontrivial = distinct (placement, layer class, source kind, outcome sequence) signatures with >=1 context-ended report.",
+			"Stalled reporter (1 case in 40, 4 episodes each): the REPORTING goroutine is held up between handing its value over and starting to wait for the answer (its context, which stays alive, is an ordinary context whose Done method waits for observed hook events), while the monitor answers and then exits (Dials context cancelled / every source Done), installs another source's report, or idles; the call must then return nil iff its value was installed (install log, View) and the verification error iff Verify rejected it, and the history must linearize. " +
+			"distinct_nontrivial = distinct (placement, layer class, source kind, outcome sequence) signatures with >=1 context-ended report, plus distinct (meanwhile, through Blank, layer class, outcome) of stalled-reporter episodes.",
 		Assumptions: []string{"Blank.SetSource(static inner source) is modelled as a blocking report of the inner source's value"},
 		MinDistinct: map[string]int{"quick": 600, "thorough": 60000},
 		MinCounters: map[string]map[string]int64{
-			"quick":    {"reports_judged_with_queue_full": 100, "linearizable_histories": 250, "context_ended_reports": 150, "followups_after_cancellation": 150, "cancel_inside_verify": 20, "cancel_at_reply": 20},
-			"thorough": {"linearizable_histories": 300000, "context_ended_reports": 150000},
+			"quick":    {"reports_judged_with_queue_full": 100, "reporter_stalled_between_handover_and_wait": 100, "reporter_stalled_while_monitor_answered_and_exited": 50, "linearizable_histories": 250, "context_ended_reports": 150, "followups_after_cancellation": 150, "cancel_inside_verify": 20, "cancel_at_reply": 20},
+			"thorough": {"linearizable_histories": 300000, "context_ended_reports": 150000, "reporter_stalled_between_handover_and_wait": 10000, "reporter_stalled_while_monitor_answered_and_exited": 5000},
 		},
 		Plan: func(tier string) fw.Plan {
 			if tier == "thorough" {
@@ -396,6 +397,11 @@ func c07EventsPollers(w *fw.Worker, i int, r *fw.Rand) {
 	fails := make(chan bad, 2)
 	var wg sync.WaitGroup
 	var halt atomic.Bool
+	// the reports carry no deadline of their own: whether one is stuck is decided below from goroutine states taken WHILE
+	// it is still pending (a dump taken after a timed-out call has returned shows an idle monitor whatever happened)
+	rctx, rcancel := context.WithCancel(ctx)
+	defer rcancel()
+	var prog [2]atomic.Int64
 	for s := 0; s < 2; s++ {
 		wg.Add(1)
 		go func(s int) {
@@ -403,30 +409,253 @@ func c07EventsPollers(w *fw.Worker, i int, r *fw.Rand) {
 			for k := 0; k < per && !halt.Load(); k++ {
 				l := e.NewLayer()
 				l.Set[k%4], l.Set[2] = true, true
-				rctx, cancel := context.WithTimeout(ctx, 5*time.Second)
 				rerr := e.Srcs[s].Report(rctx, l, true)
-				cancel()
 				if rerr != nil {
 					halt.Store(true)
 					fails <- bad{k, rerr}
 					return
 				}
+				prog[s].Add(1)
 			}
 		}(s)
 	}
-	wg.Wait()
-	w.Count("reports_under_events_pollers", int64(2*per))
+	finished := make(chan struct{})
+	go func() { wg.Wait(); close(finished) }()
+	snapshot := func() [2]int64 { return [2]int64{prog[0].Load(), prog[1].Load()} }
+	callerParked := func() bool {
+		for _, g := range dialsGoroutines([]string{"BlockingReportNewValue"}) {
+			if strings.Contains(strings.SplitN(g, "\n", 2)[0], "[select") {
+				return true
+			}
+		}
+		return false
+	}
+	last, lastChange := snapshot(), time.Now()
+watch:
+	for {
+		select {
+		case <-finished:
+			break watch
+		case <-time.After(250 * time.Millisecond):
+		}
+		if cur := snapshot(); cur != last {
+			last, lastChange = cur, time.Now()
+			continue
+		}
+		if time.Since(lastChange) < 5*time.Second {
+			continue
+		}
+		// no blocking report has completed for 5s. Two looks 300ms apart: the monitor parked in the same place both times
+		// (for "idle in its own select": with a caller parked inside BlockingReportNewValue both times, i.e. nobody is
+		// going to wake either of them) and still no progress => stuck. Anything else: keep waiting (a loaded machine).
+		s1, d1 := monitorState()
+		p1 := callerParked()
+		time.Sleep(300 * time.Millisecond)
+		s2, _ := monitorState()
+		p2 := callerParked()
+		keys := map[string]string{"idle": "call-never-answered:monitor-idle", "send-in-update": "monitor-blocked-on-abandoned-caller", "receive-in-update": "monitor-blocked-in-a-receive-while-installing", "blocked-in-submit": "monitor-blocked-submitting-callback-event"}
+		if key, isStuck := keys[s1]; isStuck && s1 == s2 && p1 && p2 && snapshot() == last {
+			w.Violation(i, key, fmt.Sprintf("blocking reports of valid values while Events() is being polled: none has completed for %v (%v done); a caller is parked inside BlockingReportNewValue and the monitor goroutine is %s, in two dumps 300ms apart", time.Since(lastChange).Round(time.Millisecond), last, s1), map[string]any{"case": desc, "goroutine": fw.TrimStack(d1)})
+			halt.Store(true)
+			rcancel()
+			<-finished
+			return
+		}
+		if time.Since(lastChange) > 90*time.Second {
+			w.Inconclusive(i, fmt.Sprintf("blocking reports under Events() pollers: no progress for 90s, monitor state %s/%s, caller parked %v/%v", s1, s2, p1, p2))
+			halt.Store(true)
+			rcancel()
+			<-finished
+			return
+		}
+	}
+	w.Count("reports_under_events_pollers", prog[0].Load()+prog[1].Load())
 	select {
 	case b := <-fails:
-		if errors.Is(b.err, context.DeadlineExceeded) {
-			stuckVerdict(w, i, fmt.Sprintf("blocking report %d of a valid value did not return within 5s while Events() is being polled", b.k), desc)
-		} else {
-			w.Violation(i, "valid-report-failed-under-events-pollers", b.err.Error(), desc)
-		}
+		w.Violation(i, "valid-report-failed-under-events-pollers", b.err.Error(), desc)
 		return
 	default:
 	}
 	w.Distinct("events-pollers")
+}
+
+// c07StallCtx is an ordinary context (it wraps a live one) whose Done method runs a function first. The reporting
+// functions evaluate ctx.Done() each time they are about to wait, so the function runs on the REPORTING goroutine at
+// exactly those places: it stands in for that goroutine being descheduled there.
+type c07StallCtx struct {
+	context.Context
+	calls atomic.Int32
+	stall func(call int32)
+}
+
+func (c *c07StallCtx) Done() <-chan struct{} {
+	n := c.calls.Add(1)
+	if c.stall != nil {
+		c.stall(n)
+	}
+	return c.Context.Done()
+}
+
+var c07StallKinds = []string{"monitor-exits:context-cancelled", "monitor-exits:every-source-done", "superseded-by-another-source", "monitor-idle-again"}
+
+// c07StalledReporter: the reporting goroutine is held up between handing its value to the monitor and starting to wait
+// for the answer (all other placements delay the monitor or end the caller's context; here the caller's context stays
+// alive and the caller itself is late). While it is held up the monitor stacks the value, answers, and then: shuts down
+// (Dials context cancelled, or every source calls Done), or installs another source's report, or goes back to idle.
+// The answer is there when the caller finally looks, so the call must return what happened to ITS value: nil when the
+// value was installed (install log, View), the verification error when it was rejected.
+func c07StalledReporter(w *fw.Worker, i int, r *fw.Rand) {
+	for _, what := range c07StallKinds {
+		c07StallEpisode(w, i, r, what, r.Chance(40), r.Chance(25))
+	}
+}
+
+func c07StallEpisode(w *fw.Worker, i int, r *fw.Rand, what string, useBlank, invalid bool) {
+	const wd = 10 * time.Second
+	o := conc.Opts{NSrc: r.Range(2, 3)}
+	w.BeginDesc(i, "reporter-stalled-after-handover:"+what)
+	c, err := c07Start(r, useBlank, o)
+	if err != nil {
+		w.Violation(i, "config-failed", err.Error(), nil)
+		return
+	}
+	e := c.e
+	defer e.Stop()
+	gates := conc.NewGates()
+	defer gates.ReleaseAll()
+	e.ExtraHook = func(name string, _ context.Context, args []any) { gates.OnHook(name, args) }
+	ctx := e.S.Ctx
+	// a clean prior state: valid layers only, so that whether the stalled report is accepted depends on its own layer
+	slots := make([]*conc.Layer, o.NSrc) // the reference stack's input: the latest accepted layer per source
+	for k := r.Intn(3); k > 0; k-- {
+		ps, pl := r.Intn(o.NSrc), e.RandLayer(r, 0, 0)
+		if res, _ := c.report(ctx, 1, ps, pl, true); res != conc.ResNil {
+			w.Violation(i, "valid-report-rejected", fmt.Sprintf("blocking report of a valid layer on a valid stack returned res=%d", res), nil)
+			return
+		}
+		slots[ps] = pl
+	}
+	src := r.Intn(o.NSrc)
+	l := e.RandLayer(r, 0, 0)
+	if invalid {
+		// rejected by Verify: the last source's negative A wins whatever the others hold
+		src = o.NSrc - 1
+		l.Set[0], l.NegA = true, true
+	}
+	if what == "monitor-exits:every-source-done" && useBlank && src == 0 {
+		// Blank.Done needs the lock the stalled SetSource holds
+		what = "monitor-exits:context-cancelled"
+	}
+	other := (src + 1 + r.Intn(o.NSrc-1)) % o.NSrc
+	otherLayer := e.RandLayer(r, 0, 0)
+	desc := map[string]any{"mode": "reporter-stalled-between-handover-and-wait", "meanwhile": what, "through_blank": useBlank && src == 0, "layer": l.String(), "source": src, "sources": o.NSrc}
+	cctx, ccancel := context.WithTimeout(context.Background(), 2*wd) // the caller's context: alive throughout (watchdog only)
+	defer ccancel()
+	recv := gates.Arm("mon.recv", isValueUpdate, true)
+	reply := gates.Arm("mon.beforeReply", nil, true)
+	nBefore := len(e.Installs())
+	var placed atomic.Bool
+	var inconclusive atomic.Pointer[string]
+	giveUp := func(why string) { inconclusive.Store(&why) }
+	sctx := &c07StallCtx{Context: cctx}
+	sctx.stall = func(n int32) {
+		if n < 2 || placed.Load() {
+			return // the first evaluation belongs to the hand-over itself
+		}
+		if !recv.Wait(2 * time.Second) {
+			return // evaluated again without the value having been handed over: not the window, nothing is judged
+		}
+		placed.Store(true)
+		if !reply.Wait(wd) {
+			giveUp("the monitor received the value but never reached its reply point")
+			return
+		}
+		switch what {
+		case "monitor-exits:context-cancelled", "monitor-exits:every-source-done":
+			if what == "monitor-exits:context-cancelled" {
+				e.S.Cancel()
+			} else {
+				dctx, dcancel := context.WithTimeout(context.Background(), wd)
+				for k, ws := range e.Srcs {
+					if c.blank != nil && k == 0 {
+						c.blank.Done(dctx)
+					} else if ws != nil && ws.WA() != nil {
+						ws.WA().Done(dctx)
+					}
+				}
+				dcancel()
+			}
+			select {
+			case <-dials.VerifMonitorDone(e.D):
+			case <-time.After(wd):
+				giveUp("the monitor did not exit")
+			}
+		case "superseded-by-another-source":
+			if res, _ := c.report(ctx, 3, other, otherLayer, true); res != conc.ResNil && !invalid {
+				giveUp(fmt.Sprintf("the superseding report returned res=%d", res))
+			}
+		default:
+			// a sentinel is received only at the top of the monitor loop: the answer has been sent
+			if !e.SendSentinel(ctx) {
+				giveUp("monitor fence failed")
+			}
+		}
+	}
+	res, rerr := c.report(sctx, 2, src, l, true)
+	if why := inconclusive.Load(); why != nil {
+		w.Inconclusive(i, "stalled reporter: "+*why)
+		return
+	}
+	if c.stuck != "" || cctx.Err() != nil {
+		w.Inconclusive(i, "stalled reporter: the call outlived the watchdog")
+		return
+	}
+	if !placed.Load() {
+		w.Count("reporter_stall_not_placed", 1)
+		return
+	}
+	w.Count("reporter_stalled_between_handover_and_wait", 1)
+	if strings.HasPrefix(what, "monitor-exits") {
+		w.Count("reporter_stalled_while_monitor_answered_and_exited", 1)
+	}
+	installed := len(e.Installs()) > nBefore // the monitor took this report first: the first new version, if any, is its value
+	view := conc.FPOf(e.D.View())
+	// what View must show after a nil return: defaults, then each source's latest layer in source order (later sources win)
+	slots[src] = l
+	if what == "superseded-by-another-source" {
+		slots[other] = otherLayer
+	}
+	wantView, _ := conc.Stack(conc.DefaultsFP(), slots)
+	switch {
+	case rerr != nil && installed:
+		w.Violation(i, "blocking-report-returned-an-error-although-its-value-was-installed", fmt.Sprintf("meanwhile=%s: the caller's context is alive, the value was stacked, verified and installed (view %+v), yet the call returned: %v", what, view, rerr), desc)
+		return
+	case rerr == nil && !installed:
+		w.Violation(i, "blocking-report-returned-nil-but-no-version-was-installed", fmt.Sprintf("meanwhile=%s: nil return, install log unchanged", what), desc)
+		return
+	case rerr == nil && invalid:
+		w.Violation(i, "blocking-report-returned-nil-for-a-value-verify-rejects", fmt.Sprintf("meanwhile=%s: %s", what, l), desc)
+		return
+	case rerr == nil && view != wantView:
+		w.Violation(i, "nil-return-but-view-is-not-the-stack-with-the-value", fmt.Sprintf("meanwhile=%s: %s returned nil, view %+v, reference stack %+v", what, l, view, wantView), desc)
+		return
+	case rerr != nil && !invalid:
+		w.Violation(i, "valid-value-rejected-with-a-live-context", fmt.Sprintf("meanwhile=%s: %s on a valid stack returned: %v", what, l, rerr), desc)
+		return
+	case rerr != nil && !errors.Is(rerr, conc.ErrInvalid):
+		w.Violation(i, "rejected-report-did-not-return-the-verification-error", fmt.Sprintf("meanwhile=%s: Verify rejected the stack with %q; the call (context alive) returned: %v", what, conc.ErrInvalid, rerr), desc)
+		return
+	}
+	e.Read(1)
+	switch e.H.Check(e.Model, 20*time.Second) {
+	case "ok":
+		w.Count("linearizable_histories", 1)
+		w.Distinct(fmt.Sprintf("stalled-reporter|%s|blank=%v|invalid=%v|%d", what, useBlank && src == 0, invalid, res))
+	case "illegal":
+		w.Violation(i, "history-not-linearizable", "reporter stalled between hand-over and wait", map[string]any{"case": desc, "history": e.H.Describe()})
+	default:
+		w.Inconclusive(i, "porcupine timeout")
+	}
 }
 
 func runC07(w *fw.Worker) {
@@ -442,6 +671,10 @@ func runC07(w *fw.Worker) {
 		}
 		if i%40 == 33 {
 			c07BlankWatcherCancel(w, i, r)
+			return
+		}
+		if i%40 == 7 {
+			c07StalledReporter(w, i, r)
 			return
 		}
 		placement := placements[(i+w.Shard)%len(placements)]
